@@ -506,6 +506,17 @@ def _check(spec, want):
             if dp[1] != tw[1]:
                 res.fail(f"digest-differs-for-rebuilt-twin:{ch}",
                          where + f"two builds of one spec in one process: {dp[1]} / {tw[1]}")
+        if ch == "walk" and "np_twin_digests" in P:
+            nt = P["np_twin_digests"][ch]
+            res.label("digest:numpy-normalised-twin")
+            if dp[0] == nt[0] == "ok":
+                res.compared()
+                if dp[1] != nt[1]:
+                    res.fail(f"digest-differs-numpy-vs-python-constants:{ch}",
+                             where + "equal expressions (numpy scalars replaced by the "
+                             f"Python numbers of the same value): {dp[1]} / {nt[1]}")
+            elif nt[0] == "raised":
+                res.fail(f"digest-raised:{ch}:{nt[1]}", where + f"numpy-normalised twin: {nt}")
         if "kw_digests" in P:
             kw = P["kw_digests"][ch]
             if not P.get("kw_twin_equal"):
@@ -649,6 +660,13 @@ def expr_tree(draw):
             ["Product", [ex, ["Power", ex, ["Var", nm()]]]],
             ["Sum", [ex, ["Call", ["Var", nm()], [ex]], ex]],
             ["If", ["Comparison", ex, "<", ["Var", nm()]], ex, sm()])))
+    elif c == 12:
+        # numpy scalar constants of every kind, numpy.bool_ included
+        ex = ["Sum", [ex, ["Const", "np.int64", 3],
+                      draw(st.sampled_from((["Const", "np.bool_", True],
+                                            ["Const", "np.bool_", False],
+                                            ["Const", "np.float64", 1.5]))),
+                      ["LogicalAnd", [["Var", nm()], ["Const", "np.bool_", True]]]]]
     elif c == 11:
         # what parse("f((a, b), [c, d])") returns: the parser's own list / tuple
         # subclasses as call arguments (the list one is hashable)
@@ -728,6 +746,8 @@ def user_object(draw):
         if kind == "D" and root == "Expression" and not levels and draw(
                 st.integers(0, 4)) == 0:
             lvl["init"] = False       # @expr_dataclass(init=False), own constructor
+        elif kind == "D" and flds and draw(st.integers(0, 3)) == 0:
+            lvl["hash"] = False       # @expr_dataclass(hash=False), own __hash__
         levels.append(lvl)
     hier = {"root": root, "levels": levels,
             "tag": draw(st.sampled_from(("MyNode", "HTTPNode2D", "Tagged")))}
@@ -775,7 +795,11 @@ def compiled_object(draw):
         other = draw(S.expr("NUM", 1, FRAG_C))
         ex = ["Call", ["Lookup", ["Var", "numpy"], draw(st.sampled_from(
             ("maximum", "minimum", "add")))], [ex, other]]
-    names = sorted(X.var_names(ex) - {"numpy", "math"})
+    subclass = draw(st.integers(0, 4)) == 0
+    if subclass:
+        # a user subclass of CompiledExpression whose context() provides 'triple'
+        ex = ["Sum", [["Call", ["Var", "triple"], [ex]], ["Var", "x"]]]
+    names = sorted(X.var_names(ex) - {"numpy", "math"} - ({"triple"} if subclass else set()))
     pool = names + [n for n in ("aa", "zz") if draw(st.integers(0, 4)) == 0]
     if draw(st.booleans()):
         pool = [n for n in pool if n not in (
@@ -793,7 +817,10 @@ def compiled_object(draw):
             else:
                 env[n] = draw(st.integers(-3, 7))
         envs.append(env)
-    return {"compiled": {"expr": ex, "listed": listed, "envs": envs}}
+    out = {"expr": ex, "listed": listed, "envs": envs}
+    if subclass:
+        out["subclass"] = True
+    return {"compiled": out}
 
 
 @st.composite
